@@ -103,6 +103,40 @@ type caseState struct {
 	relOk   []bool // scripted results of the next ReleaseTasks rounds
 	relMu   sync.Mutex
 	pace    bool
+	gate    atomic.Pointer[gateT] // overlapping requests: where the first one is parked inside its critical section
+	hold    atomic.Pointer[holdT] // overlapping requests: the second one is parked at its first published event
+}
+
+// gateT parks the goroutine that first reaches a gate point (scripted body, ReleaseTasks handling) while armed.
+type gateT struct {
+	armed   atomic.Bool
+	reached chan struct{}
+	release chan struct{}
+}
+
+func (cs *caseState) hitGate() {
+	if g := cs.gate.Load(); g != nil && g.armed.CompareAndSwap(true, false) {
+		close(g.reached)
+		<-g.release
+	}
+}
+
+// holdT parks goroutine gid at the first event it publishes (the first thing TryTransition and
+// TeardownEnvironment do with the mutex held, before they change anything).
+type holdT struct {
+	gid int64
+	ch  chan struct{}
+}
+
+func goid() int64 {
+	var buf [64]byte
+	n := runtime.Stack(buf[:], false)
+	f := strings.Fields(string(buf[:n]))
+	if len(f) < 2 {
+		return -1
+	}
+	id, _ := strconv.ParseInt(f[1], 10, 64)
+	return id
 }
 
 var cur atomic.Pointer[caseState]
@@ -127,6 +161,9 @@ func (w *capWriter) WriteEventWithTimestamp(e interface{}, ts time.Time) {
 	cs := cur.Load()
 	if cs == nil {
 		return
+	}
+	if h := cs.hold.Load(); h != nil && goid() == h.gid {
+		<-h.ch
 	}
 	switch ev := e.(type) {
 	case *evpb.Ev_EnvironmentEvent:
@@ -254,6 +291,7 @@ func Setup(work string) error {
 				cs := cur.Load()
 				ok := true
 				if cs != nil {
+					cs.hitGate()
 					cs.relMu.Lock()
 					if len(cs.relOk) > 0 {
 						ok = cs.relOk[0]
@@ -493,7 +531,8 @@ func Run(input string, paced bool) (string, error) {
 	rec.reset()
 
 	gone := false
-	for _, q := range in.At(1).List {
+	// exec runs one request as a caller of the core would; scriptRel: a teardown scripts its two release rounds
+	exec := func(q *sx.Node, scriptRel bool) error {
 		var rerr error
 		switch q.At(0).Str() {
 		case "T", "C":
@@ -503,6 +542,7 @@ func Run(input string, paced bool) (string, error) {
 			mk := func() environment.Transition {
 				return environment.NewScriptedTransition(evName, taskman, func(e *environment.Environment) error {
 					rec.add(sx.L(sx.A("B"), sx.A(evName)))
+					cs.hitGate()
 					if !bodyOk {
 						if evName == "START_ACTIVITY" {
 							e.SetCurrentRunNumberForVerif(0) // as StartActivityTransition.do does when tasks fail to start
@@ -520,9 +560,9 @@ func Run(input string, paced bool) (string, error) {
 			}
 			if q.At(0).Str() == "T" {
 				rerr = env.TryTransition(mk())
-			} else if gone {
+			} else if _, lerr := envman.Environment(id); lerr != nil {
 				// RpcServer.ControlEnvironment looks the environment up first
-				_, rerr = envman.Environment(id)
+				rerr = lerr
 			} else {
 				// the ControlEnvironment glue of core/server.go, line for line
 				rerr = env.TryTransition(mk())
@@ -541,23 +581,119 @@ func Run(input string, paced bool) (string, error) {
 				}
 			}
 		case "D":
-			cs.relMu.Lock()
-			cs.relOk = []bool{q.At(2).Bool(), q.At(3).Bool()}
-			cs.relMu.Unlock()
-			rerr = envman.TeardownEnvironment(id, q.At(1).Bool())
-			if _, e2 := envman.Environment(id); e2 != nil {
-				gone = true
+			if scriptRel {
+				cs.relMu.Lock()
+				cs.relOk = []bool{q.At(2).Bool(), q.At(3).Bool()}
+				cs.relMu.Unlock()
 			}
+			rerr = envman.TeardownEnvironment(id, q.At(1).Bool())
+		}
+		return rerr
+	}
+	// settle: what the sequential harness does after a request returned, before it looks at the environment
+	settle := func(q *sx.Node) error {
+		if q.At(0).Str() == "D" {
 			// The manager's event loop closes and forgets the pending-teardown channel only AFTER
 			// TeardownEnvironment has returned; a teardown requested right away would have its fresh
 			// registration deleted by that late cleanup (see DESIGN: finding "teardown retry race").
 			// The harness does not race it: it waits until the registration is gone.
-			if err := waitNoPendingTeardown(id); err != nil {
-				return "", err
-			}
+			return waitNoPendingTeardown(id)
+		}
+		return nil
+	}
+	record := func(rerr error) {
+		if _, e2 := envman.Environment(id); e2 != nil {
+			gone = true
 		}
 		rec.add(sx.L(sx.A("R"), classify(rerr), sx.A(env.CurrentState()), sx.U64(uint64(env.GetCurrentRunNumber())),
 			varsOf(env), pendingOf(env), sx.B(gone)))
+	}
+	for _, q := range in.At(1).List {
+		if q.At(0).Str() != "P" {
+			rerr := exec(q, true)
+			if err := settle(q); err != nil {
+				return "", err
+			}
+			record(rerr)
+			continue
+		}
+		// (P q1 q2): q2 is issued by a second caller while q1 is inside its critical section
+		q1, q2 := q.At(1), q.At(2)
+		cs.relMu.Lock()
+		cs.relOk = nil // every release round succeeds
+		cs.relMu.Unlock()
+		g := &gateT{reached: make(chan struct{}), release: make(chan struct{})}
+		g.armed.Store(true)
+		cs.gate.Store(g)
+		aDone := make(chan error, 1)
+		go func() { aDone <- exec(q1, false) }()
+		var aErr error
+		aFinished := false
+		select {
+		case <-g.reached:
+		case aErr = <-aDone:
+			aFinished = true
+		case <-time.After(60 * time.Second):
+			return "", fmt.Errorf("infrastructure: first request of an overlapping pair neither returned nor reached its gate within 60s")
+		}
+		if aFinished {
+			// q1 never got as far as a gate point (refused, illegal, vetoed by a hook): nothing to overlap with
+			g.armed.Store(false)
+			cs.gate.Store(nil)
+			if err := settle(q1); err != nil {
+				return "", err
+			}
+			record(aErr)
+			rerr := exec(q2, false)
+			if err := settle(q2); err != nil {
+				return "", err
+			}
+			record(rerr)
+			continue
+		}
+		h := &holdT{ch: make(chan struct{})}
+		bDone := make(chan error, 1)
+		started := make(chan struct{})
+		go func() {
+			h.gid = goid()
+			cs.hold.Store(h)
+			close(started)
+			bDone <- exec(q2, false)
+		}()
+		<-started
+		var bErr error
+		bFinished, werr := waitParked(h.gid, bDone, &bErr)
+		if werr != nil {
+			close(g.release)
+			close(h.ch)
+			return "", werr
+		}
+		close(g.release)
+		cs.gate.Store(nil)
+		select {
+		case aErr = <-aDone:
+		case <-time.After(60 * time.Second):
+			close(h.ch)
+			return "", fmt.Errorf("infrastructure: first request of an overlapping pair did not return within 60s of its release")
+		}
+		if err := settle(q1); err != nil {
+			close(h.ch)
+			return "", err
+		}
+		record(aErr) // q2 is parked at its first event (mutex held, nothing changed yet), or has not got the mutex yet
+		close(h.ch)
+		cs.hold.Store(nil)
+		if !bFinished {
+			select {
+			case bErr = <-bDone:
+			case <-time.After(60 * time.Second):
+				return "", fmt.Errorf("infrastructure: second request of an overlapping pair did not return within 60s")
+			}
+		}
+		if err := settle(q2); err != nil {
+			return "", err
+		}
+		record(bErr)
 	}
 	// let floating probe calls finish before the trace is cut: every goroutine spawned by
 	// callable.(*Call).Start must be parked in its select (call executed, result waiting to be
@@ -616,6 +752,56 @@ func waitCallsQuiescent() error {
 			return fmt.Errorf("infrastructure: probe calls still running after 30s")
 		}
 		time.Sleep(300 * time.Microsecond)
+	}
+}
+
+// waitParked returns once goroutine gid waits for a mutex (on the unchanged tree: the environment's
+// transitionMutex, within microseconds), or has finished (finished = true), or has been blocked on
+// something else for a while (only a tree without the mutex gets there: the overlap is then real and
+// shows in the trace).
+func waitParked(gid int64, done chan error, res *error) (finished bool, err error) {
+	deadline := time.Now().Add(30 * time.Second)
+	buf := make([]byte, 4<<20)
+	head := fmt.Sprintf("goroutine %d [", gid)
+	otherSince := time.Time{}
+	for {
+		select {
+		case *res = <-done:
+			return true, nil
+		default:
+		}
+		n := runtime.Stack(buf, true)
+		st, stack := "", ""
+		for _, g := range strings.Split(string(buf[:n]), "\n\n") {
+			if strings.HasPrefix(g, head) {
+				stack = g
+				st = g[len(head):]
+				if i := strings.IndexByte(st, ']'); i >= 0 {
+					st = st[:i]
+				}
+				break
+			}
+		}
+		// the environment's transitionMutex is the only RWMutex these callers take with Lock()
+		// (the manager's map lock is only read-locked on their way in, loggers use plain mutexes)
+		onTransitionMutex := strings.Contains(stack, "sync.(*RWMutex).Lock(") &&
+			(strings.Contains(stack, ".TryTransition(") || strings.Contains(stack, ".TeardownEnvironment("))
+		switch {
+		case (strings.Contains(st, "Mutex") || strings.Contains(st, "semacquire")) && onTransitionMutex:
+			return false, nil
+		case st == "" || strings.HasPrefix(st, "running") || strings.HasPrefix(st, "runnable") || strings.HasPrefix(st, "syscall"):
+			otherSince = time.Time{}
+		default:
+			if otherSince.IsZero() {
+				otherSince = time.Now()
+			} else if time.Since(otherSince) > 300*time.Millisecond {
+				return false, nil
+			}
+		}
+		if time.Now().After(deadline) {
+			return false, fmt.Errorf("infrastructure: second request of an overlapping pair neither parked nor returned within 30s")
+		}
+		time.Sleep(200 * time.Microsecond)
 	}
 }
 
